@@ -68,6 +68,10 @@ extern int mpt_parse_format(MPT_STRUCT(parser_format) *fmt, const char *str)
 	for ( ; i < (int) sizeof(fmt->com); ++i) {
 		fmt->com[i] = 0;
 	}
+	/* further comment characters are no escape characters */
+	while (*str && !isspace(*str)) {
+		++str;
+	}
 	/* consume whitespace */
 	while (*str && isspace(*str)) {
 		++str;
